@@ -439,6 +439,7 @@ impl<'a, C: Crypto + 'a> CaseInitiator<'a, C> {
         // Step 6: Compute Sigma3 signature (needs fabric borrow, must drop before await)
         let mut signature = MaybeUninit::<CanonPkcSignature>::uninit();
         let signature = signature.init_with(CanonPkcSignature::init());
+        let mut sigma3_key = crate::crypto::AEAD_KEY_ZEROED;
 
         exchange.with_state(|state| {
             let fabric = state.fabrics.fabric(fab_idx)?;
@@ -447,7 +448,15 @@ impl<'a, C: Crypto + 'a> CaseInitiator<'a, C> {
             let mut tmp_buf = alloc!([0u8; CASE_LARGE_BUF_SIZE]);
             initiator
                 .casep
-                .compute_sigma3_signature(crypto, fabric, &mut tmp_buf[..], signature)
+                .compute_sigma3_signature(crypto, fabric, &mut tmp_buf[..], signature)?;
+
+            // Derive the Sigma3 key once, from the transcript *before* Sigma3: `send_with` calls
+            // its closure again for an MRP retransmission, by which time Sigma3 itself has been
+            // added to the transcript. Deriving the key in there would encrypt the
+            // retransmission under a different key (that the responder cannot derive).
+            initiator
+                .casep
+                .compute_sigma3_key(crypto, fabric.ipk().op_key(), &mut sigma3_key)
         })?;
 
         // Step 7: Build and send Sigma3
@@ -461,7 +470,13 @@ impl<'a, C: Crypto + 'a> CaseInitiator<'a, C> {
                     tw.str_cb(&TLVTag::Context(1), |buf| {
                         initiator
                             .casep
-                            .sigma3_encrypt(crypto, fabric, signature.reference(), buf)
+                            .sigma3_encrypt(
+                                crypto,
+                                fabric,
+                                sigma3_key.reference(),
+                                signature.reference(),
+                                buf,
+                            )
                     })?;
                     tw.end_container()?;
 
